@@ -20,6 +20,7 @@ func c03(c *eng.Ctx, r *eng.Report) {
 		"R3.4 the commit leaf callback references every hash-valued field of Account (storage root, code hash), each reference conditional only on its own field; dirty objects commit their storage trie (error checked) before their account record is written; " +
 		"R3.5 state commit then node-database commit, both error-checked, before success is reported and before the head moves (shared with C05 R5.4); " +
 		"R3.6 errors of batch writes and commits are consumed at every call site; R3.8 an entry leaves an account's flush set (dirtyStorage) only in updateTrie, as it is written to the storage trie; R3.7 the flag that makes Commit write an account's code blob is raised unconditionally (constant true) by every function that installs code bytes, lowered only in Commit after InsertBlob of those bytes, and never computed. " +
+		"R3.9 an account object that was written is committed: every cached object is either in the dirty set Commit iterates or has its one-shot onDirty hook armed (the C04 rule R4.8 applied here: removal from the dirty set re-arms the hook or drops the object, a replaced dirty set comes with a replaced object cache, the hook is cleared only after it was called). " +
 		"Not decided: LevelDB batch atomicity and durability (trusted), that every value readable before is readable after, arbitrary physical crash points."
 	r.Assume = []string{"a LevelDB batch write is atomic and durable once it returns nil"}
 	c03PostOrder(c, r)
@@ -30,6 +31,7 @@ func c03(c *eng.Ctx, r *eng.Report) {
 	c03Errors(c, r)
 	c03DirtyBlob(c, r)
 	c03FlushSet(c, r)
+	c04DirtyOrArmedAs(c, r, "R3.9")
 }
 
 func batchCalls(fn *ssa.Function, method string) []*ssa.Call {
